@@ -15,7 +15,7 @@ when is_major_swap; the stored variables come from the manager of the same pool.
 Also decided: intermediate products are wide enough for every validated constant set; changing the constants
 always resets the variables; the skip range is sized from the updated reference object;
 Not decided: per-step rates along a swap, the skip optimisation's equivalence, decay numerics."""
-from analysis import cfg, atoms as A, preach, writes
+from analysis import poly as P, cfg, atoms as A, preach, writes
 from analysis.ir import callee_path, AnchorMissing
 from analysis.prov import prov_of, prov_assuming, strip, leaves, subterms, show
 from analysis.match import is_param, is_field, is_call, const_val, sh, mentions, fail_conditions
@@ -466,20 +466,14 @@ def R6_stepping(run):
         run.check("R6", "const@" + path.rsplit("::", 1)[1], cv(path) == want, "%s = %s, expected %s" % (path, cv(path), want), detail=str(want))
     fn = facts.need_fn(FRM + "compute_adaptive_fee_rate")
     run.touch(fn)
-    form = [strip(r) for r in _returns(fn) if strip(r)[0] == "call"]
-    ok = len(form) == 1 and form[0][1].endswith("ceil_division_u128")
+    # the quotient is a polynomial identity: numerator = factor * (accumulator * group_size)^2, denominator = 10^13, however the
+    # products are associated or named; it may be wrapped by the hard-limit minimum and the narrowing cast
+    form = list({x for r in _returns(fn) for x in subterms(r) if x[0] == "call" and x[1].endswith("ceil_division_u128")})
+    ok = len(form) == 1
     if ok:
-        num, den = strip(form[0][2][0]), strip(form[0][2][1])
-        ok = num[0] == "bin" and num[1] in ("Mul", "MulWithOverflow")
-        if ok:
-            fac = [x for x in (num[2], num[3]) if arg_name(x) == "adaptive_fee_control_factor"]
-            sq = [strip(x) for x in (num[2], num[3]) if arg_name(x) != "adaptive_fee_control_factor"]
-            ok = len(fac) == 1 and len(sq) == 1 and sq[0][0] == "bin" and sq[0][1].startswith("Mul") and strip(sq[0][2]) == strip(sq[0][3])
-            if ok:
-                cr = strip(sq[0][2])
-                ok = cr[0] == "bin" and cr[1].startswith("Mul") and {arg_name(cr[2]), arg_name(cr[3])} == {"volatility_accumulator", "tick_group_size"}
-        dl = sorted(str(x[1]) for x in subterms(den) if x[0] == "const") if ok else []
-        ok = ok and dl == ["10000", "10000", "100000"] and not [s for s in subterms(den) if s[0] == "bin" and not s[1].startswith("Mul")]
+        nm = lambda x: arg_name(x) or sh(x, 40)
+        num, den = P.poly(form[0][2][0], nm), P.poly(form[0][2][1], nm)
+        ok = num == {tuple(sorted(["adaptive_fee_control_factor", "volatility_accumulator", "volatility_accumulator", "tick_group_size", "tick_group_size"])): 1} and den == {(): 10 ** 13}
     run.check("R6", "rate-formula", ok, "compute_adaptive_fee_rate is not ceil_division_u128(control_factor * (accumulator * tick_group_size)^2, 100_000 * 10_000 * 10_000)", loc=fn.loc(),
               detail="ceil(factor * (acc * size)^2 / 1e13)")
     sw = facts.need_fn(SL.SWAP)
@@ -600,6 +594,12 @@ def check_widths(run, rule, facts, afv, frm, tag=""):
         run.touch(fn)
         hits = [x for x in arith(fn) if x[0] == op and pred(x[2], x[3])]
         ok = bool(hits) and all(h[1] >= width for h in hits)
+        if not hits and what == "denominator":
+            # the product may be a named constant: evaluated by the compiler (an overflow there does not compile), wide if its type is
+            for (bi, t, args) in calls_to(fn, lambda p: p.endswith("ceil_division_u128")):
+                d = strip(args[1])
+                if d[0] == "const" and d[1] == 10 ** 13 and WIDTH.get(d[3], 0) >= width:
+                    ok = True
         run.check(rule, "%s%s@%s" % (tag, what.replace(" ", "-"), path.rsplit("::", 1)[-1]), ok, "%s: the %s is computed in %s bits, needs >= %d" % (path, what, [h[1] for h in hits], width), loc=fn.loc(),
                   detail="%s in u%d" % (what, width))
 
